@@ -110,6 +110,13 @@ class T:
     def norm(self):
         return _LIB.norm(self)
 
+    @property
+    def dtype(self):
+        return "float64"
+
+    def clamp(self, min=None, max=None):
+        return _LIB.clamp(self, min=min, max=max)
+
     def dot(self, o):
         return T(np.dot(self.a, o.a))
 
@@ -183,7 +190,29 @@ class _Lib:
     concat = cat
 
     def finfo(self, _):
-        return types.SimpleNamespace(tiny=_TINY[0])
+        # tiny: symbolic (>0) regulariser; eps: the float64 machine epsilon (the replay runs real torch in float64)
+        return types.SimpleNamespace(tiny=_TINY[0], eps=float(np.finfo(np.float64).eps), max=float(np.finfo(np.float64).max))
+
+    def clamp(self, t, min=None, max=None):
+        a = np.asarray(t.a, dtype=object)
+        out = np.empty(a.shape, dtype=object)
+        for idx in np.ndindex(a.shape) if a.shape else [()]:
+            v = a[idx]
+            if min is not None:
+                lo = min.a.item() if isinstance(min, T) else min
+                if v < lo:
+                    v = lo
+            if max is not None:
+                hi = max.a.item() if isinstance(max, T) else max
+                if v > hi:
+                    v = hi
+            out[idx] = v
+        return T(out)
+
+    clip = clamp
+
+    def maximum(self, a, b):
+        return self.clamp(a, min=b)
 
 
 _LIB = _Lib()
@@ -192,7 +221,7 @@ _TINY = [None]
 
 def _mk_lib_module(kind):
     m = types.SimpleNamespace()
-    for name in ("clone", "norm", "inner", "tensordot", "dot", "vdot", "sum", "mul", "flatten", "cat", "finfo", "reduce_sum", "multiply", "concat"):
+    for name in ("clone", "norm", "inner", "tensordot", "dot", "vdot", "sum", "mul", "flatten", "cat", "finfo", "reduce_sum", "multiply", "concat", "clamp", "clip", "maximum"):
         setattr(m, name, getattr(_LIB, name))
     m.linalg = types.SimpleNamespace(norm=_LIB.norm, vector_norm=_LIB.norm)
     if kind == "tf":
